@@ -243,7 +243,7 @@ DEFOP(pop) {
 DEFOP(pcorrupt) {
     // patch_corrupt fault: a0 kind, a1 selector, a2 seed
     if (!w.pending_patch || w.pending_patch->kids.empty()) { w.noop(st, "no pending patch"); return; }
-    int kind = (int)((uint64_t)st.A(0) % 9);
+    int kind = (int)((uint64_t)st.A(0) % 10);
     MVal *op = w.pending_patch->kids[(uint64_t)st.A(1) % w.pending_patch->kids.size()];
     Rng r((uint64_t)st.A(2));
     auto member = [&](const char *n) -> MVal * { if (op->type != T_OBJECT) return nullptr; for (MVal *k : op->kids) if (k->key == n) return k; return nullptr; };
@@ -257,6 +257,13 @@ DEFOP(pcorrupt) {
         case 5: { retype(w.pending_patch, r.chance(1, 2) ? T_OBJECT : T_STRING); break; }                        // patch root is not an array
         case 6: { MVal *m = member("path"); if (m) retype(m, T_OBJECT); break; }
         case 7: { MVal *m = member("from"); if (m && m->type == T_STRING) m->str = r.chance(1, 2) ? "" : "/-"; break; }
+        case 9: {  // any JSON value whatsoever as patch document
+            GenOpts go = profile_opts(r.chance(1, 2) ? 3 : 5);
+            MVal *v = gen_value(r, go);
+            mv_free(w.pending_patch);
+            w.pending_patch = v;
+            break;
+        }
         default: { if (op->type == T_OBJECT && !op->kids.empty()) { MVal *v = op->kids[r.below(op->kids.size())]; mv_detach(v); mv_free(v); } break; }
     }
     w.pending_corrupt = true;
@@ -538,6 +545,65 @@ DEFOP(minify) {
     buf.push_back('\0');
     cJSON_Minify(buf.data());
     w.log.add("minify -> h" + std::to_string(hash_str(std::string(buf.data()))));
+}
+
+// The case-insensitive Utils variants and cJSONUtils_AddPatchToArray: no listed property states their values, but their
+// memory, allocator routing and thread behaviour are in scope (C14, C20). Everything runs on private copies.
+DEFOP(utils_ci) {
+    int as = w.live_slot(st.A(0)), bs = w.live_slot(st.A(1));
+    if (as < 0 || bs < 0) { w.noop(st, "need documents"); return; }
+    MVal *a = w.slots[as], *b = w.slots[bs];
+    if (!doc_ok_for_patch(a) || !doc_ok_for_patch(b)) { w.noop(st, "documents not suitable"); return; }
+    cJSON *da = cJSON_Duplicate(a->c, 1), *db = cJSON_Duplicate(b->c, 1);
+    if (!da || !db) { cJSON_Delete(da); cJSON_Delete(db); w.noop(st, "alloc"); return; }
+    std::string trace;
+    switch ((uint64_t)st.A(2) % 5) {
+        case 0: {
+            cJSON *p = cJSONUtils_GeneratePatches(da, db);
+            int status = p ? cJSONUtils_ApplyPatches(da, p) : -1;
+            trace = "generate+apply status " + I(status) + " ops " + I(p ? cJSON_GetArraySize(p) : -1);
+            cJSON_Delete(p);
+            break;
+        }
+        case 1: {
+            cJSON *p = cJSONUtils_GenerateMergePatch(da, db);
+            trace = std::string("merge patch ") + (p ? "object" : "NULL");
+            if (p) { da = cJSONUtils_MergePatch(da, p); cJSON_Delete(p); }
+            break;
+        }
+        case 2: {
+            cJSONUtils_SortObject(da);
+            cJSON *patches = cJSON_CreateArray();
+            if (patches) {
+                cJSONUtils_AddPatchToArray(patches, "add", "/new", db);
+                cJSONUtils_AddPatchToArray(patches, "remove", "/new", nullptr);
+                cJSONUtils_AddPatchToArray(patches, "test", "", da);
+                int status = cJSONUtils_ApplyPatches(da, patches);
+                trace = "AddPatchToArray x3, apply status " + I(status);
+                cJSON_Delete(patches);
+            }
+            break;
+        }
+        case 3: {
+            da = cJSONUtils_MergePatch(da, db);
+            trace = std::string("MergePatch -> ") + (da ? "tree" : "NULL");
+            break;
+        }
+        default: {
+            char *p = cJSONUtils_FindPointerFromObjectTo(da, da->child ? da->child : da);
+            cJSON *hit = p ? cJSONUtils_GetPointer(da, p) : nullptr;
+            trace = std::string("pointer ") + (p ? show_bytes(p, 40) : std::string("NULL")) + (hit ? " resolves" : " does not resolve");
+            if (p) cJSON_free(p);
+            break;
+        }
+    }
+    char *txt = da ? cJSON_PrintUnformatted(da) : nullptr;
+    trace += " h" + std::to_string(txt ? hash_str(txt) : 0);
+    if (txt) cJSON_free(txt);
+    cJSON_Delete(da);
+    cJSON_Delete(db);
+    w.stats.probes["utils_case_insensitive_variants"]++;
+    w.log.add("utils_ci " + trace);
 }
 
 // ------------------------------------------------------------------ C11 duplicate oracles
